@@ -142,22 +142,30 @@ def justifyLine (text : List α) (width : Int) : R (List α) := do
       let extra ← distribute numGaps odd spacesToAdd.toNat 0 false (List.replicate numGaps.toNat 0)
       pure (interleave cx words extra)
 
-/-- manip.AlignLineLeft -/
-def alignLeft (text : List α) (width : Int) : List α :=
+/-- manip.AlignLineLeft below its clamp of the width -/
+def alignLeftCore (text : List α) (width : Int) : List α :=
   let startSpaces := countLeadingWs cx text
   let endingText := if startSpaces > 0 then gSub cx text startSpaces (gLen cx text) else text
   let extra : Int := width - gLen cx endingText
   endingText ++ gRepeat [cx.sp] (if extra > 0 then extra else 0)
 
-/-- manip.AlignLineRight -/
-def alignRight (text : List α) (width : Int) : List α :=
+/-- manip.AlignLineLeft (D20: a negative width is clamped to 0 before `width - len`) -/
+def alignLeft (text : List α) (width : Int) : List α :=
+  alignLeftCore cx text (if width < 0 then 0 else width)
+
+/-- manip.AlignLineRight below its clamp of the width -/
+def alignRightCore (text : List α) (width : Int) : List α :=
   let endSpaces := countTrailingWs cx text
   let startingText := if endSpaces > 0 then gSub cx text 0 (-endSpaces) else text
   let extra : Int := width - gLen cx startingText
   gRepeat [cx.sp] (if extra > 0 then extra else 0) ++ startingText
 
-/-- manip.AlignLineCenter -/
-def alignCenter (text : List α) (width : Int) : List α :=
+/-- manip.AlignLineRight (D20: a negative width is clamped to 0 before `width - len`) -/
+def alignRight (text : List α) (width : Int) : List α :=
+  alignRightCore cx text (if width < 0 then 0 else width)
+
+/-- manip.AlignLineCenter below its clamp of the width -/
+def alignCenterCore (text : List α) (width : Int) : List α :=
   let startSpaces := countLeadingWs cx text
   let endSpaces := countTrailingWs cx text
   let midText := if endSpaces > 0 then gSub cx text startSpaces (-endSpaces)
@@ -168,6 +176,54 @@ def alignCenter (text : List α) (width : Int) : List α :=
     let right := spaceNeeded / 2     -- Go `/` truncates; operands are positive here
     let left := spaceNeeded - right
     gRepeat [cx.sp] left ++ midText ++ gRepeat [cx.sp] right
+
+/-- manip.AlignLineCenter (D20: a negative width is clamped to 0 before `width - len`) -/
+def alignCenter (text : List α) (width : Int) : List α :=
+  alignCenterCore cx text (if width < 0 then 0 else width)
+
+theorem clamp_sub_pos_false {w : Int} (h : w ≤ 0) (n : Nat) : (w - (n : Int) > 0) = False :=
+  eq_false (by omega)
+theorem clamp_sub_le_true {w : Int} (h : w ≤ 0) (n : Nat) : (w - (n : Int) ≤ 0) = True :=
+  eq_true (by omega)
+
+omit [DecidableEq α] in
+/-- the core sees the width only through `width - len > 0` with `len ≥ 0` -/
+theorem alignLeftCore_clamp (text : List α) (w : Int) :
+    alignLeftCore cx text (if w < 0 then 0 else w) = alignLeftCore cx text w := by
+  by_cases h : w < 0
+  · simp only [h, if_true]
+    unfold alignLeftCore
+    simp only [clamp_sub_pos_false (Int.le_refl 0), clamp_sub_pos_false (Int.le_of_lt h), if_false]
+  · simp only [h, if_false]
+
+omit [DecidableEq α] in
+theorem alignRightCore_clamp (text : List α) (w : Int) :
+    alignRightCore cx text (if w < 0 then 0 else w) = alignRightCore cx text w := by
+  by_cases h : w < 0
+  · simp only [h, if_true]
+    unfold alignRightCore
+    simp only [clamp_sub_pos_false (Int.le_refl 0), clamp_sub_pos_false (Int.le_of_lt h), if_false]
+  · simp only [h, if_false]
+
+omit [DecidableEq α] in
+theorem alignCenterCore_clamp (text : List α) (w : Int) :
+    alignCenterCore cx text (if w < 0 then 0 else w) = alignCenterCore cx text w := by
+  by_cases h : w < 0
+  · simp only [h, if_true]
+    unfold alignCenterCore
+    simp only [clamp_sub_le_true (Int.le_refl 0), clamp_sub_le_true (Int.le_of_lt h), if_true]
+  · simp only [h, if_false]
+
+omit [DecidableEq α] in
+/-- the public functions are their cores (as functions, so that partial applications rewrite too) -/
+theorem alignLeft_eq_core : alignLeft cx = alignLeftCore cx := by
+  funext t w; exact alignLeftCore_clamp cx t w
+omit [DecidableEq α] in
+theorem alignRight_eq_core : alignRight cx = alignRightCore cx := by
+  funext t w; exact alignRightCore_clamp cx t w
+omit [DecidableEq α] in
+theorem alignCenter_eq_core : alignCenter cx = alignCenterCore cx := by
+  funext t w; exact alignCenterCore_clamp cx t w
 
 /-- manip.CombineColumnBlocks: the lines of the combined block -/
 def combineColumns (left right : List (List α)) (minSpaceBetween : Int) : R (List (List α)) :=
